@@ -183,6 +183,19 @@ theorem div_qr_ui_ptr_spec (dir : Int) (hdir : dir = 0 ∨ dir = -1 ∨ dir = 1)
       ∀ i, i < s.nv → i ≠ q → i ≠ r → s'.value i = s.value i :=
   div_qr_ui_ok dir hdir h hq hr hn hqr d hd0 hdB ha
 
+/-- mpz_divexact_ui (dive_ui.c), dst = src allowed; `d ∣ src` is the documented precondition. -/
+theorem divexact_ui_ptr_spec {s : St} (h : Inv s) {q n : Nat} (hq : q < s.nv) (hn : n < s.nv) (d : Nat) (hd0 : d ≠ 0)
+    (hdB : d < B) (_hdvd : (d : Int) ∣ s.value n) :
+    ∃ s', divexact_ui q n d s = .ok s' ∧ Inv s' ∧ s'.nv = s.nv ∧ s'.value q = DivZ.divexactS (s.value n) d ∧
+      ∀ i, i < s.nv → i ≠ q → s'.value i = s.value i := by
+  obtain ⟨s', e, hres⟩ := div_q_ui_ok 0 (Or.inl rfl) h hq hn d hd0 hdB
+  refine ⟨s', ?_, ?_⟩
+  · unfold divexact_ui; simp only [bind, Except.bind, e, pure, Except.pure]
+  · have : DivZ.specQ 0 (s.value n) d = DivZ.divexactS (s.value n) d := by simp [DivZ.specQ, DivZ.divexactS]
+    rw [this] at hres; exact hres
+
+example : (divexact_ui 0 0 7 (ofInts [-(2 ^ 130 + 1) * 7])).map (·.view 1) = .ok [(-(2 ^ 130 + 1), 3, 0)] := by decide
+
 -- r = n: the remainder limb lands on limb 0 of the operand; ceiling: r = -6, returned 6
 example : (div_r_ui 1 0 0 7 exSt).map (fun p => (p.1, p.2.view 1)) = .ok (6, [(-6, 4, 0)]) := by decide
 -- q = n in place, r separate, floor of a negative dividend
